@@ -39,6 +39,7 @@ BINARY = TARGET_DIR / 'release' / 'qllex'
 # Sources whose modification must trigger a rebuild.
 _SOURCES = [
     RUST_DIR / 'lexer' / 'src' / 'main.rs',
+    RUST_DIR / 'lexer' / 'src' / 'lib.rs',
     RUST_DIR / 'lexer' / 'Cargo.toml',
     RUST_DIR / 'bigdecimal-shim' / 'src' / 'lib.rs',
     pathlib.Path('/repo/edb/edgeql-parser/src/tokenizer.rs'),
